@@ -12,6 +12,8 @@ BODY = [
     Tpl("nbpulse-2", 'NONBLOCKING PULSE {q} "a" ' + FLAT(2.0), q=("int", Q)),
     Tpl("pulse2q-half", 'PULSE 0 1 "b" ' + FLAT(0.5)),
     Tpl("pulse-padded", 'PULSE {q} "a" erf_square(duration: 1.0, pad_left: 0.5, pad_right: 0.25, risetime: 0.1)', q=("int", Q)),
+    Tpl("pulse-pad-left", 'PULSE {q} "a" erf_square(duration: 1.0, pad_left: 0.5, risetime: 0.1)', q=("int", Q)),
+    Tpl("pulse-pad-right", 'PULSE {q} "a" erf_square(duration: 2.0, pad_right: 0.25, risetime: 0.1)', q=("int", Q)),
     Tpl("capture-1", 'CAPTURE {q} "a" ' + FLAT(1.0) + " ro[0]", q=("int", Q)),
     Tpl("rawcapture-2", 'RAW-CAPTURE {q} "a" 2.0 ro[0]', q=("int", Q)),
     Tpl("delay-half", "DELAY {q} 0.5", q=("int", Q)),
@@ -29,6 +31,8 @@ CALS = [
     Tpl("cal-three", 'DEFCAL G q:\n\tPULSE q "a" ' + FLAT(1.0) + '\n\tDELAY q 0.5\n\tPULSE 0 1 "b" ' + FLAT(2.0)),
     Tpl("cal-fixed0", 'DEFCAL G 0:\n\tPULSE 0 1 "b" ' + FLAT(1.0) + '\n\tSHIFT-PHASE 0 "a" 1.0'),
     # parallel pieces that end at different times, in both orders (the hull must not depend on the order in which spans are merged)
+    # the body is removed after parsing (an empty calibration body can only be built through the API): the gate expands to nothing
+    Tpl("cal-empty", "DEFCAL G q:\n\tNOP"),
     Tpl("cal-parallel-long-first", 'DEFCAL G q:\n\tNONBLOCKING PULSE 0 "a" ' + FLAT(2.0) + '\n\tNONBLOCKING PULSE 1 "a" ' + FLAT(0.5)),
     Tpl("cal-parallel-short-first", 'DEFCAL G q:\n\tNONBLOCKING PULSE 0 "a" ' + FLAT(0.5) + '\n\tNONBLOCKING PULSE 1 "a" ' + FLAT(2.0) + '\n\tNONBLOCKING PULSE 0 1 "b" ' + FLAT(1.0)),
 ]
@@ -94,7 +98,8 @@ def oracle(req, decide, td, frames, gcals, mcals, body, obs, m=None):
         req("uncomputable-reported", "", "err" in obs)
         return
     if "err" in obs: return          # the statement speaks of schedules that can be computed
-    req("one-item-per-instruction", "", obs["count"] == len(body) and sorted(obs["items"]) == list(range(len(body))))
+    timed = [i for i, sp in enumerate(ref["spans"]) if sp is not None]          # an instruction that expands to nothing has no span
+    req("one-item-per-instruction", "", obs["count"] == len(timed) and sorted(obs["items"]) == timed)
     for i, sp in enumerate(ref["spans"]):
         if i not in obs["items"] or sp is None: continue
         s, d = obs["items"][i]
@@ -146,6 +151,9 @@ class C25(Check):
         gcals = []
         if cal:
             a, hv = instantiate(m, by[cal], "c_")
+            if cal == "cal-empty":
+                cd = a.fields[0]
+                cd.fields[td.structs["CalibrationDefinition"].index("instructions")] = VecObj([])
             gcals.append(to_tree(m, a))
             m.call_path("Program::add_instruction", [Ref(cell, 0), a])
         body = []
@@ -184,10 +192,10 @@ class C25(Check):
         by = {t.name: t for t in BODY + CALS}
         lines = ([by[ctx["cal"]].render(hole_values(by[ctx["cal"]], "c_", model))] if ctx["cal"] else []) + \
                 [by[nm].render(hole_values(by[nm], f"i{i}_", model)) for i, nm in enumerate(ctx["names"])]
-        return {"program": PRELUDE + "\n" + "\n".join(lines), "cal": lines[0] if ctx["cal"] else None, "kind": kind, "detail": detail}
+        return {"program": PRELUDE + "\n" + "\n".join(lines), "cal": lines[0] if ctx["cal"] else None, "empty": ctx["cal"] == "cal-empty", "kind": kind, "detail": detail}
 
     def native(self, runner, case):
-        r = runner.call({"op": "block_schedule", "program": case["program"]})
+        r = runner.call({"op": "block_schedule", "program": case["program"], "empty_calibration_bodies": bool(case.get("empty"))})
         if "blocks" not in r or len(r["blocks"]) != 1: return None, r
         b = r["blocks"][0]
         f = lambda h: _struct.unpack("<d", _struct.pack("<Q", int(h, 16)))[0]
@@ -198,6 +206,10 @@ class C25(Check):
         if case.get("cal"):
             pr = runner.call({"op": "parse_instructions", "texts": [case["cal"]]})["results"][0]["ok"]
             gcals = [parse_debug(pr[0])]
+            if case.get("empty"):
+                cd = gcals[0][1][0]
+                f = list(cd[1]); f[self.td.structs["CalibrationDefinition"].index("instructions")] = []
+                gcals = [(gcals[0][0], [(cd[0], f)])]
         return (obs, body, gcals), r
 
     def confirm(self, runner, case):
